@@ -218,6 +218,8 @@ def check(case, acc, tmp):
     dense = np.asarray(t.matrix_data.toarray(), float)
     emd = {ax: exp_md_over.get(ax, src_md(t, ax)) for ax in ('observation', 'sample')}
     gen = t.generated_by if t.generated_by is not None else 'verif-harness'
+    if t.generated_by is not None and case.get('header', 0) != 1:
+        gen = gen + ' (as passed to the writer)'      # the argument counts, not what the table was built with
     ttype = t.type
     nontrivial = bool(np.count_nonzero(dense)) or any(
         case.get(k) not in (None, 'plain', 'none', 0) for k in
